@@ -139,6 +139,14 @@ async fn one(case: &Value, seed: u64) -> Result<(), (String, String)> {
             }
         }
     }
+    // the end is final: reading again after end-of-stream / an error must not produce data
+    for _ in 0..2 {
+        if let Ok(n) = r.read(&mut buf).await {
+            if n > 0 {
+                return Err(("noise_data_after_end".to_string(), format!("reader obtained {n} more bytes after the stream had ended ({end})")));
+            }
+        }
+    }
     let want = case["out"]["delivered"].as_u64().unwrap() as usize;
     // 1. whatever is delivered must be a prefix of what was written
     if delivered.len() > written || delivered.iter().enumerate().any(|(i, b)| *b != pat(i)) {
